@@ -29,6 +29,7 @@ EXPLANATION = (
     "with the Symbols constants the operand parsers split on; mnemonics must be GenericInstr names; the literal-exception table "
     "equals the Immediate positions."
     ' C17.O: what reaches the constructor in from_operands is the parsed operand itself, at most wrapped as Immediate(<it>). C17.Y: all operand parsers recognise integers through the one shared helper. C17.N: the mnemonic table consulted by the parser is owned per flavour instance.'
+    ' C17.O executes every from_operands abstractly on distinguishable operand objects (raw ints and Immediates at the immediate positions): field i holds operand i unchanged.'
 )
 LEVEL_TEXT = (
     "Static analysis, partial: printer/parser agreement is decided per shape, per operand kind and per symbol for all classes of all "
